@@ -3,6 +3,7 @@ package main
 import (
 	"fmt"
 	"regexp"
+	"sort"
 	"strconv"
 	"strings"
 
@@ -76,6 +77,29 @@ func genQueryStmt(r *Rng, idx int, bad bool) qstmt {
 		return qstmt{text: lead + "-- name: " + name + " " + cmd + "\n" + indent + body + ";\n"}
 	}
 	kinds := []string{"unknown-column", "bad-annotation", "missing-returning", "param-gap", "unknown-table", "bad-name", "mixed-params", "unknown-cmd"}
+	// one offending statement per error site of the compiler and the validators, each spread over several lines
+	more := map[string]string{
+		"unknown-qualifier-star":   ":many\n" + indent + "SELECT\n  a.*\nFROM authors",
+		"ambiguous-column":         ":many\n" + indent + "SELECT\n  id\nFROM authors a\nJOIN authors b ON a.id = b.id",
+		"unknown-param-column":     ":many\n" + indent + "SELECT id\nFROM authors\nWHERE nope = $1",
+		"ambiguous-param-column":   ":many\n" + indent + "SELECT a.id\nFROM authors a\nJOIN authors b ON a.id = b.id\nWHERE name = $1",
+		"unknown-set-column":       ":exec\n" + indent + "UPDATE authors\nSET nope = $1\nWHERE id = $2",
+		"insert-arity":             ":exec\n" + indent + "INSERT INTO authors\n  (id, name)\nVALUES\n  ($1)",
+		"unknown-sqlc-function":    ":many\n" + indent + "SELECT id\nFROM authors\nWHERE id = sqlc.nope(1)",
+		"too-many-parts":           ":many\n" + indent + "SELECT id\nFROM authors\nWHERE a.b.c.id = $1",
+		"unknown-returning":        ":one\n" + indent + "DELETE FROM authors\nWHERE id = $1\nRETURNING nope",
+		"unknown-join-table":       ":many\n" + indent + "SELECT authors.id\nFROM authors\nJOIN nowhere n ON n.id = authors.id",
+		"unknown-qualified-column": ":many\n" + indent + "SELECT\n  authors.nope\nFROM authors",
+	}
+	if r.Chance(60) {
+		var ks []string
+		for k := range more {
+			ks = append(ks, k)
+		}
+		sort.Strings(ks)
+		k := r.Pick(ks)
+		return qstmt{lead + "-- name: " + name + " " + more[k] + ";\n", k}
+	}
 	k := r.Pick(kinds)
 	switch k {
 	case "unknown-column":
@@ -155,9 +179,9 @@ func runC17(r *Rng, n int, tier string) {
 		files := map[string]string{cfgPrefix + "schema.sql": schema}
 		var order []string
 		type expect struct {
-			file     string
-			lo, hi   int
-			kind     string
+			file   string
+			lo, hi int
+			kind   string
 		}
 		var exps []expect
 		var tags []string
